@@ -28,6 +28,11 @@ FRAMES = {
     "pyth3b": ((2, -2, 1), (1, 2, 2), (2, 1, -2)),
     "pyth7": ((2, 3, 6), (3, -6, 2), (6, 2, -3)),
     "pyth7b": ((6, 2, -3), (2, 3, 6), (3, -6, 2)),
+    # directions / normals whose LEADING component is zero: a perturbation of that component (far below the tolerance in
+    # force, possibly above the default one) must not decide anything, e.g. the sign convention of a hashed direction
+    "axis-perm2": ((0, 1, 0), (0, 0, 1), (1, 0, 0)),
+    "yz-pyth": ((0, 3, 4), (0, -4, 3), (5, 0, 0)),
+    "yz-pyth-b": ((5, 0, 0), (0, -4, 3), (0, 3, 4)),
 }
 EXPS = list(range(5, 13))
 REQUIRED_FUNCS = ("set_eps", "set_sig_figures", "get_eps", "get_sig_figures", "Line.__hash__", "Plane.__hash__",
